@@ -215,14 +215,23 @@ impl<'a> CompiledPredicate<'a> {
                 list,
             } => {
                 let target_val = self.eval_value(expr, row)?;
+                if matches!(target_val, Value::Null) {
+                    return Some(Value::Null);
+                }
                 let mut found = false;
+                let mut saw_null = false;
                 for list_item in list.iter() {
                     if let Some(list_val) = self.eval_value(list_item, row) {
-                        if self.values_equal(&target_val, &list_val) {
+                        if matches!(list_val, Value::Null) {
+                            saw_null = true;
+                        } else if self.values_equal(&target_val, &list_val) {
                             found = true;
                             break;
                         }
                     }
+                }
+                if !found && saw_null {
+                    return Some(Value::Null);
                 }
                 let result = if *negated { !found } else { found };
                 Some(Value::Int(if result { 1 } else { 0 }))
@@ -236,6 +245,12 @@ impl<'a> CompiledPredicate<'a> {
                 let val = self.eval_value(expr, row)?;
                 let low_val = self.eval_value(low, row)?;
                 let high_val = self.eval_value(high, row)?;
+                if matches!(val, Value::Null)
+                    || matches!(low_val, Value::Null)
+                    || matches!(high_val, Value::Null)
+                {
+                    return Some(Value::Null);
+                }
                 let in_range = self
                     .value_cmp(&val, &low_val)
                     .is_some_and(|o| o != std::cmp::Ordering::Less)
@@ -254,6 +269,9 @@ impl<'a> CompiledPredicate<'a> {
             } => {
                 let val = self.eval_value(expr, row)?;
                 let pat = self.eval_value(pattern, row)?;
+                if matches!(val, Value::Null) || matches!(pat, Value::Null) {
+                    return Some(Value::Null);
+                }
                 let matches = match (&val, &pat) {
                     (Value::Text(s), Value::Text(p)) => self.like_match(s, p, *case_insensitive),
                     _ => false,
